@@ -1,6 +1,9 @@
 (* C02 - System Z = rank comparison under the Z-ranking.  Property theorems only. *)
 From InfOCF Require Import Core Tol Form Model Spec ThmOps ThmTop.
 From InfOCFProps Require Import Ex.
+From InfOCF Require Import PyLib TieCons TieZ TieP TieTop.
+From InfOCFGen Require Import SrcCond SrcCons SrcInf SrcZ SrcP.
+From Coq Require Import ZArith.
 
 Theorem C02_system_z_is_rank_comparison : forall n D q P, D <> [] -> part_strict n D = Some P ->
   infer n SysZ false D q = Ans (z_spec (worlds n) P q).
@@ -11,6 +14,22 @@ Print Assumptions C02_system_z_is_rank_comparison.
 Theorem C02_kz_is_layer_rank : forall P w, Kz.kz world P w = SysZ.zrank world (layers P) w.
 Proof. exact kz_zrank. Qed.
 Print Assumptions C02_kz_is_layer_rank.
+
+(* SOURCE TIE.  py_consistency, py_general_inference and py_SystemZ_inference are GENERATED on every run from
+   /repo's consistency_sat.py, inference.py and system_z.py (coq/gen/Src*.v).  Run as the manager runs them - the
+   consistency test, then the quick checks around the operator body on the partition it returned - they answer
+   with the rank comparison, for every signature size, dictionary of conditionals and query. *)
+Theorem C02_source_code_is_rank_comparison : forall n (d:dict Z cond) q u Pc st, dict_values d <> [] ->
+  py_consistency n (S (length d)) (Build_pybase d) u false = Return (PVal Pc, st) ->
+  py_general_inference n (py_SystemZ_inference n (S (length Pc)) Pc u) false q tt tt
+  = Return (z_spec (worlds n) (acP Pc) q).
+Proof. exact src_z_strict_spec. Qed.
+Print Assumptions C02_source_code_is_rank_comparison.
+Theorem C02_source_code_is_model : forall n q Pc weakly u1 u2, Pc <> [] ->
+  py_SystemZ_inference n (S (length Pc)) Pc u1 q weakly u2
+  = Return (if weakly then z_ext n (acP Pc) q else z_strict n (acP Pc) q).
+Proof. exact tie_z_inference. Qed.
+Print Assumptions C02_source_code_is_model.
 
 Example birds_z : map (infer 4 SysZ false birds) [q_fp; q_nfp; q_wp] = [Ans false; Ans true; Ans false]
   /\ (exists P, part_strict 4 birds = Some P /\ length P = 2).
